@@ -502,7 +502,7 @@ func (h *httpServerHandler) handlePostResponse(ctx context.Context, w http.Respo
 	}
 
 	// Deliver response using responseManager.
-	if h.responseManager.DeliverResponse(requestIDStr, responseMessage) {
+	if h.responseManager.DeliverResponse(pendingRequestKey(sessionID, requestIDStr), responseMessage) {
 		h.logger.Debugf("Successfully delivered response for request ID: %v", response.ID)
 	} else {
 		h.logger.Debugf("Received response for unknown request ID: %v", response.ID)
@@ -776,7 +776,7 @@ func (h *httpServerHandler) SendRequest(ctx context.Context, sessionID string, r
 	}
 
 	// Register request and get response channel.
-	requestIDStr := fmt.Sprintf("%v", request.ID)
+	requestIDStr := pendingRequestKey(sessionID, fmt.Sprintf("%v", request.ID))
 	responseChan := h.responseManager.RegisterRequest(requestIDStr)
 	defer h.responseManager.UnregisterRequest(requestIDStr)
 
@@ -826,6 +826,13 @@ func (h *httpServerHandler) isValidPath(requestPath string) bool {
 		return true
 	}
 	return requestPath == h.serverPath
+}
+
+// pendingRequestKey is the key of a server-issued request in the pending table: the
+// session the request was sent to together with its id, so that only an answer
+// posted by that session is accepted for it.
+func pendingRequestKey(sessionID, requestID string) string {
+	return sessionID + "\x00" + requestID
 }
 
 // responseManager manages pending requests and their response channels.
